@@ -68,7 +68,8 @@ def check(model: Model, rep: Report, tier: str):
     with rep.isolated():
         cg = CallGraph(model)
         share_rule(rep, model, lambda m, r: h5(m, r, cg), "C01.R12", "the memoised start time returned for an operation is its own: the memo key separates any two links "
-                   "whose start times can differ (= C03.H5)")
+                   "whose start times can differ (= C03.H5)",
+                   keep=lambda o: "/structure/" in o["loc"] or "/language/" in o["loc"])
 
 
 # ---------------------------------------------------------------------------------------------
